@@ -12,7 +12,7 @@ PROPERTY = "C54"
 FTPM = "protocols/ftp.py"
 FPM = "python/filepath.py"
 QF = "twisted.protocols.ftp"
-TECHNIQUE = "provenance of path values at filesystem sinks + guard dominance in toSegments"
+TECHNIQUE = "sink provenance, footprint table, guard dominance; descendant(): loop shape + bounded evaluation"
 EXPLANATION = (
     "Decides a provenance chain: (1) in class FTP every path argument of every self.shell.<op>(...) call is a variable all of "
     "whose definitions are toSegments(self.workingDirectory, <argument>), and self.workingDirectory is only ever [] or such a "
@@ -28,7 +28,12 @@ EXPLANATION = (
     "methods used are scanned for upward primitives. "
     "Not decided: symbolic links (excluded by the statement), FilePath.child itself (C26), the realm's choice of root. "
     "Every anchor function is also checked to be entered on every call (no memoising/wrapping decorator, duplicate definition or rebinding). "
+    "Methods: structural for every clause; descendant() has a structural loop-shape decider (two idioms) and, as second layer and fallback when the loop shape is not recognised, a bounded evaluation on segment lists of length 0..3 (then that clause has bounded evidence only, noted in the evidence). "
 )
+RULE_KINDS = {
+    "*": "structural",                          # provenance of every path value at every sink, footprint table, guard dominance in toSegments, loop-shape rule for descendant()
+    "shell/descendant-evaluated": "bounded",    # second layer under shell/descendant-is-child-per-segment: descendant() interpreted on segment lists of length 0..3
+}
 ASSUMPTIONS = [
     "the rules read a normalised view of the anchored modules (sa/props/_lib_j.Normaliser): private helpers expanded at their call sites, module constants and single-assignment pure temporaries substituted, loops over constant tuples unrolled; evaluation order inside one statement is not modelled",
    "the shell root exists while the shell is in use (makedirs creates missing ancestors only below it)", "FilePath.child rejects anything that is not a direct child (property C26)", "IFTPShell implementations other than the two in ftp.py are out of scope"]
@@ -299,9 +304,46 @@ def _s_descendant(ctx, S):
         raise AnalysisError(f"descendant() not evaluable: {e}")
     except Exception as e:  # noqa: BLE001 - an interpreted exception escaping descendant() for a plain list of names is itself the finding
         bad = bad or ("<any>", f"raises {type(e).__name__}: {e}", ())
-    ctx.check(bad is None, "shell/descendant-is-child-per-segment", "twisted.python.filepath.AbstractFilePath.descendant",
+    ctx.check(bad is None, "shell/descendant-evaluated", "twisted.python.filepath.AbstractFilePath.descendant",
               f"descendant() does not apply child() once per segment starting from self: for segments {bad and bad[0]} it yields {bad and bad[1]} via {bad and bad[2]} "
-              f"(a segment bypasses FilePath.child's containment check)")
+              f"(a segment bypasses FilePath.child's containment check)", detail="bounded: segment lists of length 0..3, as list and as tuple")
+    # ---- structural decider (for every segment list): the accumulator starts as self, is only ever rebound to <accumulator>.child(<next segment>), the
+    #      segments are consumed one by one in order, and the accumulator is what is returned.  Two loop idioms are recognised.
+    gd = ctx.cfg(fd)
+    seg_p = ps[1]
+    defs = local_defs(fd, track_mutation=False)
+    rets = [gd.node(x).ast for x in normal_exits(gd)]
+    acc = src(rets[0].value) if rets and all(isinstance(r, ast.Return) and isinstance(r.value, ast.Name) for r in rets) and len({src(r.value) for r in rets}) == 1 else None
+    verdict = None          # None = shape not recognised
+    if acc is not None:
+        adefs = [d for d in defs.get(acc, [])]
+        inits = [d for d in adefs if d is not None and not (isinstance(d, ast.Call) and call_attr(d) == "child")]
+        steps = [d for d in adefs if d is not None and isinstance(d, ast.Call) and call_attr(d) == "child"]
+        fors = [n for n in walk_local(fd) if isinstance(n, ast.For)]
+        whiles = [n for n in walk_local(fd) if isinstance(n, ast.While)]
+        if len(fors) == 1 and not whiles and src(fors[0].iter) == seg_p and isinstance(fors[0].target, ast.Name) and not fors[0].orelse:
+            item = fors[0].target.id
+            body = [b for b in fors[0].body if not isinstance(b, ast.Pass)]
+            verdict = [src(d) for d in inits] == [ps[0]] and len(steps) == 1 and len(body) == 1 and isinstance(body[0], ast.Assign) and body[0].value is steps[0] and \
+                src(steps[0].func.value) == acc and [src(a) for a in steps[0].args] == [item] and not steps[0].keywords
+        elif len(whiles) == 1 and not fors and src(whiles[0].test) in ("True", "1"):
+            its = [k for k, v in defs.items() if len(v) == 1 and v[0] is not None and isinstance(v[0], ast.Call) and call_name(v[0]) == "iter" and [src(a) for a in v[0].args] == [seg_p]]
+            nexts = [(k, v[0]) for k, v in defs.items() if len(v) == 1 and v[0] is not None and isinstance(v[0], ast.Call) and call_name(v[0]) == "next" and len(v[0].args) == 1
+                     and its and src(v[0].args[0]) == its[0]]
+            if len(its) == 1 and len(nexts) == 1:
+                item, nx = nexts[0]
+                stop = [h for t in walk_local(whiles[0]) if isinstance(t, ast.Try) and any(x is nx for b in t.body for x in ast.walk(b)) for h in t.handlers
+                        if h.type is not None and src(h.type) == "StopIteration"]
+                exits_ok = len(stop) == 1 and len(stop[0].body) >= 1 and isinstance(stop[0].body[-1], ast.Return) and src(stop[0].body[-1].value) == acc and \
+                    not any(isinstance(x, (ast.Break, ast.Continue)) for x in walk_local(whiles[0]))
+                verdict = exits_ok and [src(d) for d in inits] == [ps[0]] and len(steps) == 1 and src(steps[0].func.value) == acc and [src(a) for a in steps[0].args] == [item] \
+                    and not steps[0].keywords and any(isinstance(b, ast.Assign) and b.value is steps[0] for b in whiles[0].body)
+    if verdict is None:
+        ctx.note("shell/descendant-is-child-per-segment: loop shape not recognised, clause left to the bounded rule shell/descendant-evaluated")
+    else:
+        ctx.check(verdict, "shell/descendant-is-child-per-segment", "twisted.python.filepath.AbstractFilePath.descendant",
+                  "descendant() is not `accumulator = self; for each segment in order: accumulator = accumulator.child(segment); return accumulator`: some segment "
+                  "reaches the result without FilePath.child's containment check", detail="structural: holds for every segment list")
 
 
 def _s_path_only(ctx, S):
@@ -629,7 +671,7 @@ MUTANTS = [
            expect_rule="normalise/segments-separator-free"),
     Mutant("descendant-joins-tail", FPM, "        path: AbstractFilePath[OtherAnyStr] = self  # type:ignore[assignment]\n        for name in segments:\n            path = path.child(name)\n        return path",
            "        path: AbstractFilePath[OtherAnyStr] = self  # type:ignore[assignment]\n        for name in segments[:1]:\n            path = path.child(name)\n        return path.preauthChild(\"/\".join(segments[1:])) if segments[1:] else path",
-           expect_rule="shell/descendant-is-child-per-segment"),
+           expect_rule="shell/descendant-"),
     Mutant("rmd-prunes-empty-parents", _F, "            os.rmdir(p.path)\n", "            os.removedirs(p.path)\n", expect_rule="shell/footprint-within-subtree"),
     Mutant("rename-prunes-and-creates-parents", _F, "            os.rename(fp.path, tp.path)", "            os.renames(fp.path, tp.path)", expect_rule="shell/footprint-within-subtree"),
     Mutant("rmd-also-removes-parent-when-empty", _F, "        try:\n            os.rmdir(p.path)\n        except OSError as e:",
